@@ -64,7 +64,8 @@ def history_case(weights: dict, min_ops=1, max_ops=40, max_size=140000, boundary
         'cfg': config(targets),
         'aux_cfg': config(targets),
         'pool': st.lists(content_desc(max_size, boundary_weight), min_size=1, max_size=pool_max),
-        'lowered': st.sampled_from([None, None, None, [2, 9500], [1, 1], [3, 0], [950, 1]]),
+        # [IN batch size, full-scan threshold, pack copy chunk size]: internal tuning constants, lowered in a fraction of the cases
+        'lowered': st.sampled_from([None, None, None, [2, 9500, 65536], [1, 1, 13], [3, 0, 1000], [950, 1, 1], [950, 9500, 7]]),
         'ops': st.integers(min_ops, max_ops).flatmap(lambda n: st.lists(op(weighted(weights)), min_size=n, max_size=n)),
     }
     if extra:
